@@ -90,7 +90,7 @@ fn c19_order_n64_linear() {
 
 /// Pipeline level, one lane of 3: every strategy is monotone in q over the table, q = 0 / 1 give
 /// the minimum / maximum, and the result does not change under a symbolic permutation of the lane.
-fn lane_laws<I: Interpolate<i16>>(interp: &I) {
+fn lane_laws<I: Interpolate<i16>, const NQ: usize>(interp: &I) {
     let pay: [i8; 3] = kani::any();
     let vals = [pay[0] as i16, pay[1] as i16, pay[2] as i16];
     let mn = vals[0].min(vals[1]).min(vals[2]);
@@ -108,12 +108,13 @@ fn lane_laws<I: Interpolate<i16>>(interp: &I) {
     };
     let pv = [vals[perm[0]], vals[perm[1]], vals[perm[2]]];
     arm_bulk_contract();
-    // ascending q: 0, 0.25, 0.3, 0.5-ulp, 0.5, 0.5+ulp, 0.75, 1
-    let qs = [T3[0].0, T3[3].0, T3[5].0, T3[6].0, T3[2].0, T3[7].0, T3[4].0, T3[1].0];
-    let mut qv = Vec::with_capacity(9);
+    // ascending q (NQ of them): 0, 0.25, 0.5+ulp, 1 [, 0.3, 0.5-ulp, 0.5, 0.75 in the long form]
+    let qs8 = [T3[0].0, T3[3].0, T3[5].0, T3[6].0, T3[2].0, T3[7].0, T3[4].0, T3[1].0];
+    let qs4 = [T3[0].0, T3[3].0, T3[7].0, T3[1].0];
+    let mut qv = Vec::with_capacity(NQ + 1);
     let mut j = 0;
-    while j < 8 {
-        qv.push(n64(qs[j]));
+    while j < NQ {
+        qv.push(n64(if NQ == 8 { qs8[j] } else { qs4[j] }));
         j += 1;
     }
     let qarr = Array1::from(qv);
@@ -122,7 +123,7 @@ fn lane_laws<I: Interpolate<i16>>(interp: &I) {
     let mut b = Array1::from(pv.to_vec());
     let rp = b.quantiles_mut(&qarr, interp).unwrap();
     let mut j = 0;
-    while j < 8 {
+    while j < NQ {
         assert!(mn <= r[j] && r[j] <= mx, "between the lane minimum and maximum");
         if j > 0 {
             assert!(r[j - 1] <= r[j], "non-decreasing in q");
@@ -130,33 +131,39 @@ fn lane_laws<I: Interpolate<i16>>(interp: &I) {
         assert!(r[j] == rp[j], "unchanged when the lane is permuted");
         j += 1;
     }
-    assert!(r[0] == mn && r[7] == mx, "q = 0 returns the minimum, q = 1 the maximum");
+    assert!(r[0] == mn && r[NQ - 1] == mx, "q = 0 returns the minimum, q = 1 the maximum");
     kani::cover!(s == 4 && pay[0] < pay[1] && pay[1] < pay[2], "W: a 3-cycle permutation of distinct values");
 }
 
-//@ prop=C19,C01:thorough tier=quick mem=10 timeout=3600 flags=modelmap uses=cut inst="quantiles_mut(8 ascending q, Midpoint) on Array1<i16> len 3 and on a symbolic permutation of it" bounds="i8-range payloads, all 6 permutations; unwind 20"
+//@ prop=C19,C01:thorough tier=quick mem=10 timeout=3600 flags=modelmap uses=cut inst="quantiles_mut([0, 0.25, 0.5+ulp, 1], Midpoint) on Array1<i16> len 3 and on a symbolic permutation of it" bounds="i8-range payloads, all 6 permutations; unwind 12"
 #[kani::proof]
-#[kani::unwind(20)]
+#[kani::unwind(12)]
 fn c19_lane_laws_midpoint() {
-    lane_laws(&Midpoint);
+    lane_laws::<_, 4>(&Midpoint);
 }
-//@ prop=C19,C01 tier=thorough mem=10 timeout=5400 flags=modelmap uses=cut inst="quantiles_mut(8 ascending q, Linear) on Array1<i16> len 3 and a permutation" bounds="i8-range payloads; unwind 12"
+//@ prop=C19,C01 tier=thorough mem=16 timeout=7200 flags=modelmap uses=cut inst="quantiles_mut(8 ascending q, Midpoint) on Array1<i16> len 3 and on a symbolic permutation of it" bounds="i8-range payloads, all 6 permutations; unwind 20"
 #[kani::proof]
 #[kani::unwind(20)]
+fn c19_lane_laws_midpoint_q8() {
+    lane_laws::<_, 8>(&Midpoint);
+}
+//@ prop=C19,C01 tier=thorough mem=10 timeout=5400 flags=modelmap uses=cut inst="quantiles_mut([0, 0.25, 0.5+ulp, 1], Linear) on Array1<i16> len 3 and a permutation" bounds="i8-range payloads; unwind 12"
+#[kani::proof]
+#[kani::unwind(12)]
 fn c19_lane_laws_linear() {
-    lane_laws(&Linear);
+    lane_laws::<_, 4>(&Linear);
 }
-//@ prop=C19,C01 tier=thorough mem=10 timeout=5400 flags=modelmap uses=cut inst="quantiles_mut(8 ascending q, Nearest) on Array1<i16> len 3 and a permutation" bounds="i8-range payloads; unwind 12"
+//@ prop=C19,C01 tier=thorough mem=10 timeout=5400 flags=modelmap uses=cut inst="quantiles_mut([0, 0.25, 0.5+ulp, 1], Nearest) on Array1<i16> len 3 and a permutation" bounds="i8-range payloads; unwind 12"
 #[kani::proof]
-#[kani::unwind(20)]
+#[kani::unwind(12)]
 fn c19_lane_laws_nearest() {
-    lane_laws(&Nearest);
+    lane_laws::<_, 4>(&Nearest);
 }
-//@ prop=C19,C01 tier=thorough mem=10 timeout=5400 flags=modelmap uses=cut inst="quantiles_mut(8 ascending q, Lower) on Array1<i16> len 3 and a permutation" bounds="i8-range payloads; unwind 12"
+//@ prop=C19,C01 tier=thorough mem=10 timeout=5400 flags=modelmap uses=cut inst="quantiles_mut([0, 0.25, 0.5+ulp, 1], Lower) on Array1<i16> len 3 and a permutation" bounds="i8-range payloads; unwind 12"
 #[kani::proof]
-#[kani::unwind(20)]
+#[kani::unwind(12)]
 fn c19_lane_laws_lower() {
-    lane_laws(&Lower);
+    lane_laws::<_, 4>(&Lower);
 }
 
 /// The selecting strategies commute with any strictly increasing relabelling of the data.
@@ -166,21 +173,21 @@ fn relabel<I: Interpolate<u8>>(interp: &I) {
     kani::assume(f[0] < f[1] && f[1] < f[2] && f[2] < f[3]);
     let c: [u8; 3] = kani::any();
     kani::assume(c[0] < 4 && c[1] < 4 && c[2] < 4);
-    let qarr = array![n64(T3[0].0), n64(T3[2].0), n64(T3[1].0), n64(T3[5].0), n64(T3[3].0)];
+    let qarr = array![n64(T3[0].0), n64(T3[5].0), n64(T3[1].0)];
     arm_bulk_contract();
     let mut a = Array1::from(c.to_vec());
     let r = a.quantiles_mut(&qarr, interp).unwrap();
     let mut b = Array1::from(vec![f[c[0] as usize], f[c[1] as usize], f[c[2] as usize]]);
     let rf = b.quantiles_mut(&qarr, interp).unwrap();
     let mut j = 0;
-    while j < 5 {
+    while j < 3 {
         assert!(rf[j] == f[r[j] as usize], "quantile(f(data)) == f(quantile(data)) for a strictly increasing f");
         j += 1;
     }
     kani::cover!(c[0] == 3 && c[1] == 0 && c[2] == 2 && f[3] == 255 && f[0] == 0, "W: distinct codes, extreme relabelling");
 }
 
-//@ prop=C19,C01:thorough tier=quick mem=8 timeout=3600 flags=modelmap uses=cut inst="Nearest on Array1<u8> len 3 vs the relabelled lane" bounds="codes in 0..=3, every strictly increasing f: {0..3} -> u8, 5 q; unwind 12"
+//@ prop=C19,C01:thorough tier=quick mem=8 timeout=3600 flags=modelmap uses=cut inst="Nearest on Array1<u8> len 3 vs the relabelled lane" bounds="codes in 0..=3, every strictly increasing f: {0..3} -> u8, q in {0, 0.3, 1}; unwind 12"
 #[kani::proof]
 #[kani::unwind(12)]
 fn c19_relabel_nearest() {
